@@ -343,6 +343,7 @@ def representScalar (t : CqlTy) (ty : GoTy) (v : CqlVal) : URes :=
       | .uuid, .bytes false | .timeuuid, .bytes false => .ok (.bytes false false b)
       | .uuid, .str false | .timeuuid, .str false => .ok (.str false (uuidString b))
       | .inet, .ip => .ok (.ip ((ipTo4 b).getD b))
+      | .inet, .str false => .ok (.str false (ipString b))
       | _, _ => .unmodelled)
   | .bool b => (match t, ty with | .boolean, .bool named => .ok (.bool named b) | _, _ => .unmodelled)
   | .f32 x => (match t, ty with | .float, .f32 named => .ok (.f32 named x) | _, _ => .unmodelled)
